@@ -119,3 +119,9 @@ package excellent
 //@   invariant inOK(s.input) && inputOK() && s.input.unreadCount <= 1
 //@   invariant ch != eof ==> (netPos(s.input) == old(netPos(s.input)) + 1 && ch == old(upcoming(s.input, 0)))
 //@   invariant ch == eof ==> netPos(s.input) == old(netPos(s.input))
+
+// C12: a text literal is written as strconv.Quote of its value (which the parser unquotes to the same string)
+//@ func (x *TextLiteral) String
+//@   requires x != nil && x.Value != nil
+//@   assigns nothing
+//@   ensures [quoted] result == strconv.Quote(x.Value.native)
